@@ -97,7 +97,11 @@ func (f *Fn) canon(e ast.Expr, depth int) string {
 		return x.Name
 	case *ast.SelectorExpr:
 		if sel := f.Info.Selections[x]; sel != nil {
-			return f.canon(x.X, depth) + "." + x.Sel.Name
+			base := f.canon(x.X, depth)
+			if strings.HasPrefix(base, "&") {
+				base = base[1:] // (&v).f is v.f
+			}
+			return base + "." + x.Sel.Name
 		}
 		// qualified identifier
 		return f.canon(x.Sel, depth)
@@ -295,6 +299,15 @@ func (f *Fn) atomOf(e ast.Expr) Atom {
 			_ = id
 		}
 	case *ast.Ident:
+		if v, ok := f.Info.Uses[x].(*types.Var); ok && !v.IsField() {
+			if _, sub := f.Subst[v]; !sub {
+				if def, idx := f.singleDefIdx(v); def != nil && idx < 0 {
+					if b, isB := v.Type().Underlying().(*types.Basic); isB && b.Kind() == types.Bool {
+						return f.atomOf(def)
+					}
+				}
+			}
+		}
 		if IsBoolLit(f.Info, x, true) {
 			return Atom{"true", true}
 		}
